@@ -592,7 +592,7 @@ LEVEL_TEXT = ("Theorems (Coq, closed under the global context), about the MODEL 
               "dif_out_s = 1 iff flipping s flips n and the sen_out bits are the binary digits of the number of such s -- with the popcount circuit "
               "of C13's model no assumption about popcount is left (its correctness, input interface and output width are derived); (3) the "
               "descending search of props.sensitivity over the clog2/int_to_bin encoding returns the maximum for all m (incl. the unconstrained top "
-              "bit at m = 2^w), and composed with (2) it returns the sensitivity; (4) influence, avg_sensitivity, sensitize (model functions, all "
+              "bit at m = 2^w), and composed with (2) and the proved certificate of the sensitivity circuit it returns the sensitivity; (4) influence, avg_sensitivity, sensitize (model functions, all "
               "inputs) meet their definitions relative to exact model counting / a sound and complete solver only -- the certificate of the "
               "model's sensitization circuit (closed, acyclic, free nodes = startpoints) is proved. (1) and (2) are proved by showing that the model functions always "
               "produce the shapes sens_shape / sv_shape (on the add_subcircuit / add inversions of the C04/C06 development) and that every graph of "
@@ -600,11 +600,11 @@ LEVEL_TEXT = ("Theorems (Coq, closed under the global context), about the MODEL 
               "the model output, and the recorded popcount circuit is compared with C13's model. Independently the Coq oracle brute-forces the "
               "definitions on the original circuit and compares them with a certified simulation of the recorded circuits under every valuation "
               "and with every recorded return value.")
-LEVEL_NOTE = ("Remaining hypotheses (not axioms): for the composition in (3) the certificate of the SENSITIVITY circuit T (closed, acyclic, free "
-              "nodes = the startpoints; sensitivity_spec_full is kept as a Definition, sensitivity_spec_partial carries the certificate; proving it "
-              "for all inputs needs acyclicity of the popcount tree, which C13 does not provide) -- `holds` checks exactly this certificate on "
-              "every recorded circuit (theorem `certificate`); a sound and complete SAT solver on the "
-              "queries made (C01; satisfiable: brute force, theorem solver_exists); exact model counting projected on startpoints (C08; satisfiable: "
-              "counter_exists). Trusted: Coq kernel + vm_compute, std++, the API model of Base/Api.v, C13's popcount model, harness canonicalisation "
-              "(topologically sorted dumps, Fraction(float)), pure-Python pysat stand-in (its answers are re-checked by the oracle).")
+LEVEL_NOTE = ("No _partial theorem is left: the certificates of both transform circuits (closed, acyclic, free nodes = the tied inputs) are "
+              "proved for all inputs (the popcount part from C13's popcount_combinational), so (3) and (4) hold for the model functions with only "
+              "the external solver / counter as hypotheses (not axioms): a SAT solver sound and complete on the queries made (C01; satisfiable: "
+              "brute force, theorem solver_exists) and exact model counting projected on startpoints (C08; satisfiable: counter_exists). "
+              "Trusted: Coq kernel + vm_compute, std++, the API model of Base/Api.v, C13's popcount model (tied to the recorded popcount circuit "
+              "per case), harness canonicalisation (topologically sorted dumps, Fraction(float)), pure-Python pysat stand-in (its answers are "
+              "re-checked by the oracle).")
 TECHNIQUE = "Coq proofs (model functions produce the shapes, shape theorems, search, props-level specs, certificates, C13 popcount) + graph-equality correspondence + vm_compute oracle of the definitions"
